@@ -15,7 +15,7 @@ The loop over the ContextResults is cut with the invariant, for every row i,
 import z3
 
 from pyvc import alg
-from pyvc.ctx import cur
+from pyvc.ctx import Unsupported, cur
 from pyvc.loops import CutSeq, LoopCut
 from pyvc.npmodel import Arr, MArr, Selection, in_range
 from pyvc.strmodel import SStr
@@ -233,11 +233,27 @@ class Collect(Case):
         results = [mod.CallResult(package="qartod", test="probe_test", function=len, results=flags)] if has else []
         return mod.ContextResult(stream_id="s", results=results, subset_indexes=sub, data=sel(COLS["data"]), tinp=sel(COLS["tinp"]), zinp=sel(COLS["zinp"]), lat=sel(COLS["lat"]), lon=sel(COLS["lon"]))
 
+    @staticmethod
+    def _accumulator(loc):
+        """the mapping the function accumulates into: selected by kind (the one dict-valued local of the
+        frame), not by its name"""
+        ds = []
+        for v in loc.values():
+            if isinstance(v, dict) and not any(v is d for d in ds):
+                ds.append(v)
+
+        def inside(x, d, depth=0):
+            return depth < 4 and any(v is x or (isinstance(v, dict) and inside(x, v, depth + 1)) for v in d.values())
+
+        # temporaries pointing into the accumulator (a nested level of it) are not accumulators
+        ds = [d for d in ds if not any(o is not d and inside(d, o) for o in ds)]
+        if len(ds) != 1:
+            raise Unsupported("collect contract: expected one mapping-valued local, found %d" % len(ds))
+        return ds[0]
+
     def _entry_arrays(self, loc):
         """the loop-carried arrays of the (single) key"""
-        coll = loc.get("collected")
-        if coll is None:
-            return {}
+        coll = self._accumulator(loc)
         if self.params["how"] == "list":
             if not len(coll):
                 return {}
@@ -293,7 +309,7 @@ class Collect(Case):
             return a
 
         def put(loc, entry):
-            coll = loc["collected"]
+            coll = self._accumulator(loc)
             if how == "list":
                 coll[entry.hash_key] = entry
             else:
